@@ -151,12 +151,33 @@ class Functor(IUnifiable):
         else:
             return YPFail()
 
+def _copy_term(term, mapping):
+    """Returns a copy of term with all bindings resolved at every depth and every
+    unbound variable replaced, consistently, by a new one (recorded in mapping)."""
+    term = get_value(term)
+    if isinstance(term, Variable):
+        if term not in mapping:
+            mapping[term] = Variable()
+        return mapping[term]
+    if isinstance(term, Functor):
+        return Functor(term._name, [_copy_term(a, mapping) for a in term._args])
+    return term
+
 class Answer:
-    """Data structure to represent predicates/facts."""
+    """Data structure to represent predicates/facts. A fact is an independent copy of
+    the values it was created from: it keeps the values they had at that moment, and
+    its unbound variables belong to the fact."""
     def __init__(self, values):
-        self.values = values
+        mapping = {}
+        self.values = [_copy_term(v, mapping) for v in values]
+        self._has_variables = bool(mapping)
     def match(self, args):
-        return unify_arrays(args, self.values)
+        values = self.values
+        if self._has_variables:
+            # the fact's variables are fresh at every use
+            mapping = {}
+            values = [_copy_term(v, mapping) for v in values]
+        return unify_arrays(args, values)
     def __str__(self):
         return f'Answer({[to_python(x) for x in self.values]})'
 
